@@ -1600,3 +1600,16 @@ Proof.
   intros Hsp Hff Hc Hnz. rewrite <- (acked_is_pruned_plus_reading c fids dm k0 ops Hsp Hff Hc).
   apply no_torn_from; auto; try apply sinv_init.
 Qed.
+
+(* ---------- special paths: /dev/null, /dev/stdout, /dev/stderr never touch the directory or a descriptor ---------- *)
+Theorem special_paths_bypass c w o : special c = true -> fopen w = None ->
+  files (step c w o) = files w /\ fopen (step c w o) = None /\ dirmode (step c w o) = dirmode w /\
+  step_ok c w o = true /\ step_rot c w o = false /\
+  acked (step c w o) = acked w ++ match o with Write id _ _ _ _ _ _ _ => [id] | _ => [] end.
+Proof.
+  intros Hsp Ho. unfold step, step_ok, step_rot. destruct o as [id size t1 t2 t3 t4 t5 flt|t|t|t]; cbn [step3]; rewrite ?Hsp; cbn [fst snd].
+  - unfold std_write. destruct (path c); ginv_fields; rewrite ?app_nil_r; auto 10.
+  - ginv_fields. rewrite app_nil_r. auto 10.
+  - unfold active_file. rewrite Ho. cbn [fst snd]. ginv_fields. rewrite app_nil_r. auto 10.
+  - ginv_fields. rewrite app_nil_r. auto 10.
+Qed.
